@@ -41,7 +41,15 @@ def generate(rng, tier):
         ty = rng.choice(["f32", "f32", "f64", "i32"])
         e = 0 if ty == "i32" else rng.choice([0, 0, -3, 2])
         cases.append({"op": "split", "ty": ty, "e": e, "data": data, "style": style})
-    return cases
+    # a long array first (not evaluated by the model: it only exercises state that an implementation might keep between
+    # calls, e.g. cached FFT plans), then the FFT-path cases in DEcreasing length, then everything else shuffled
+    fft = sorted([c for c in cases if len(c["data"][0]) // 2 > 100], key=lambda c: -len(c["data"][0]))
+    rest = [c for c in cases if len(c["data"][0]) // 2 <= 100]
+    rng.shuffle(rest)
+    data, style = statgen.gen_array(rng, 1, 4200, 1, "ar1")
+    primer = {"op": "split", "ty": "f32", "e": 0, "data": data, "style": "primer", "primer": True}
+    k = len(rest) // 2
+    return [primer] + fft + rest[:k] + [dict(primer)] + [dict(c) for c in fft[::-1][:3]] + rest[k:]
 
 
 def qlit(m, e):
@@ -49,7 +57,7 @@ def qlit(m, e):
 
 
 def coq_term(case, out):
-    if "panic" in out:
+    if "panic" in out or case.get("primer"):
         return None
     data, e = case["data"], case["e"]
     m, n, p = len(data), len(data[0]), len(data[0][0])
@@ -128,6 +136,8 @@ def py_tau(halves):
 def oracle(case, out):
     if "panic" in out:
         return "split_rhat_mean_ess panicked: " + out["panic"]
+    if case.get("primer"):
+        return None
     data, e = case["data"], case["e"]
     m, n, p = len(data), len(data[0]), len(data[0][0])
     h = n // 2
